@@ -51,6 +51,7 @@ func c03DerivedSeeds(r *vReport, cats []*vCatalogue) []*c03Seed {
 		out = append(out, &c03Seed{name: c.Seed, cat: c})
 		out = append(out, c03Reorderings(c, &skipped)...)
 		out = append(out, c03SiblingVariations([]*vCatalogue{c}, &skipped)...)
+		out = append(out, c03SectionsByExpression(c, &skipped)...)
 		for _, m := range c.Mappings {
 			var keyNames []string
 			for _, k := range m.Keys {
@@ -110,6 +111,59 @@ func c03SiblingVariations(cats []*vCatalogue, skipped *int) []*c03Seed {
 	var out []*c03Seed
 	for _, v := range vSiblingVariations(cats, skipped) {
 		out = append(out, &c03Seed{name: v.Cat.Seed, cat: v.Cat, onlyPath: v.Container, direct: true})
+	}
+	return out
+}
+
+// c03SectionsByExpression: for every key of a block mapping whose value is a sequence, a mapping
+// (block or flow style) or a multi-line scalar, the variant in which that whole value is given by one expression
+// (`labels: ${{ ... }}`, `matrix: ${{ ... }}`, `env: ${{ ... }}`), kept when it lints clean; only the
+// direct scalar children of the mapping the key stands in are mutated (the siblings of the section).
+func c03SectionsByExpression(c *vCatalogue, skipped *int) []*c03Seed {
+	var out []*c03Seed
+	for _, m := range c.Mappings {
+		if m.Flow || len(m.Keys) < 2 {
+			continue
+		}
+		for _, k := range m.Keys {
+			if k.Line < 1 || k.EndLine < k.Line {
+				continue
+			}
+			scalarValue := false
+			for _, q := range c.Scalars {
+				if q.Path == k.Path && !q.IsKey {
+					scalarValue = true
+				}
+			}
+			if scalarValue && k.EndLine == k.Line {
+				continue // a one-line scalar: covered by the sibling variations
+			}
+			head := c.Lines[k.Line-1]
+			colon := k.Len
+			if k.Col-1+colon >= len(head) || head[k.Col-1+colon] != ':' {
+				continue
+			}
+			for ei, expr := range []string{"${{ fromJSON(vars.X) }}", "${{ matrix.x }}"} {
+				var lines []string
+				lines = append(lines, c.Lines[:k.Line-1]...)
+				lines = append(lines, head[:k.Col-1+colon+1]+" "+expr)
+				lines = append(lines, c.Lines[k.EndLine:]...)
+				src := strings.Join(lines, "\n")
+				res := vLint(src, nil)
+				if res.Panic != "" || res.Err != nil || len(res.Errs) > 0 {
+					*skipped++
+					continue
+				}
+				name := fmt.Sprintf("%s<%s=expression%d>", c.Seed, k.Path, ei)
+				dc, err := vBuildCatalogue(name, src)
+				if err != nil {
+					*skipped++
+					continue
+				}
+				out = append(out, &c03Seed{name: name, cat: dc, onlyPath: m.Path, direct: true})
+				break
+			}
+		}
 	}
 	return out
 }
